@@ -505,9 +505,13 @@ class FractionScalarSpec(FunctionSpec):
                     continue
                 conv = lambda t, x_=x_: app(S(st["U_fb"], x_), app(tbt, t))
                 r = z3.Real("ratio!%s" % n_)
+                off = z3.Real("offset!%s" % n_)
                 xx = z3.Real("x!any")
-                # scale-only: the conversion multiplies by a positive ratio (instantiated by matching on conv terms)
-                linear = z3.And(r > 0, z3.ForAll([xx], conv(xx) == xx * r, patterns=[conv(xx)]), conv(amount) == amount * r)
+                # the conversion is x -> r*x + offset with a positive ratio (every table unit is; instantiated by
+                # matching on conv terms); scale-only: offset 0
+                is_affine = z3.And(r > 0, z3.ForAll([xx], conv(xx) == xx * r + off, patterns=[conv(xx)]), conv(amount) == amount * r + off, conv(z3.RealVal(0)) == off)
+                linear = z3.And(is_affine, off == 0)
+                affine = z3.And(is_affine, off != 0)
 
                 def chk(I, res, conv=conv, linear=linear):
                     if not (isinstance(res, SRef) and isinstance(res.o, HObj) and res.o.cls.name == "FractionValue") or res.o is ctx["va"].o:
@@ -526,7 +530,8 @@ class FractionScalarSpec(FunctionSpec):
                     out.append(unspecified("to:unknown (the Unknown quantity type accepts anything)", g))
                     continue
                 out.append(ret("scale-only/to:" + n_, z3.And(g, linear), props=("C18", "C02"), check=chk))
-                out.append(ret("affine/to:" + n_, z3.And(g, z3.Not(linear)), props=("C18",), check=chk))
+                out.append(ret("affine/to:" + n_, z3.And(g, affine), props=("C18", "C02"), check=chk))
+                out.append(unspecified("neither-scale-nor-offset/to:" + n_, z3.And(g, z3.Not(is_affine))))
             out.append(ret("own-unit", own == u, props=("C18", "C02"), check=lambda I, res: self.same_amount(ctx, res)))
             return out
         if op in ("lt", "le", "gt", "ge"):
